@@ -15,7 +15,10 @@ def valid(base, index, scale, disp):
     if index in ("rsp", "esp"):
         # the stack pointer cannot be an index; written unscaled as the second register it denotes the same
         # address as the swapped form, which is allowed (NASM swap) - except when the base is rsp too
-        if scale not in (None, 1) or base in ("rsp", "esp") or base is None:
+        # Alone with the factor 1 ('[1*rsp+d]') it denotes [rsp+d] as well.
+        if scale not in (None, 1) or base in ("rsp", "esp"):
+            return False
+        if base is None and scale != 1:
             return False
     if base is None and index is None and disp is None:
         return False
@@ -70,6 +73,8 @@ def key_shapes():
         a((None, i, 2, None, "s"))
         a((None, i, 4, 0x10, "s"))
         a((None, i, 8, -0x100, "s"))
+    for i, d in (("rsp", None), ("rsp", 0x10), ("rsp", -0x81), ("esp", 0x10)):
+        a((None, i, 1, d, "s"))
     a((None, None, None, 0x10, ""))
     a((None, None, None, 0x12345678, ""))
     a((None, None, None, 0x7fffffff, "d"))
